@@ -10,11 +10,14 @@ KA = "fl,fle,fleby,get,clear,restart"   # expiring tree alphabet (insert and tic
 SA = "clear,restart,partial"     # segment tree alphabet: insert/query always on; clear, clock restart, partially consumed iterators
 
 
-def M(sys, n, flags, pay="u16", mode="live", hint=8, inject=0, crash=0, cap_s=3000, max_states=None, label=None, audit=0, deep=0, quq=0, tail2=0):
+def M(sys, n, flags, pay="u16", mode="live", hint=8, inject=0, crash=0, cap_s=3000, max_states=None, label=None, audit=0, deep=0, quq=0, tail2=0, cs=0):
     a = ["bfs", "--sys", sys, "--pay", pay, "--n", str(n), "--mode", mode, "--hint", str(hint), "--flags", flags, "--max-secs", str(cap_s)]
     if audit:
         a += ["--audit", "1"]
         label = label or f"{sys}<{pay}> N={n} {mode} hint={hint} + abstraction audit (observations and unmerged suffixes on every arrival)"
+    if quq and cs:
+        a += ["--quq-cs", str(cs)]
+        label = label or f"{sys}<{pay}> N={n} {mode} hint={hint} + query, then every sequence of 1..{quq + cs} updates, full observation suite after each (single queries after the first {quq}), unmerged"
     if quq and tail2:
         a += ["--quq-tail", str(1 + tail2)]
     if quq:
@@ -32,11 +35,14 @@ def M(sys, n, flags, pay="u16", mode="live", hint=8, inject=0, crash=0, cap_s=30
     return {"args": a, "label": label or f"{sys}<{pay}> N={n} {mode} hint={hint}" + (f" inject<={inject}" if inject else "") + (" crash-only" if crash else "")}
 
 
-def K(sys, n, t, flags, mode="live", hint=8, inject=0, crash=0, cap_s=3000, max_states=None, label=None, tbase=0, audit=0, deep=0, quq=0, tail2=0):
+def K(sys, n, t, flags, mode="live", hint=8, inject=0, crash=0, cap_s=3000, max_states=None, label=None, tbase=0, audit=0, deep=0, quq=0, tail2=0, cs=0):
     a = ["bfs", "--sys", sys, "--n", str(n), "--t", str(t), "--mode", mode, "--hint", str(hint), "--flags", flags, "--max-secs", str(cap_s)]
     if audit:
         a += ["--audit", "1"]
         label = label or f"{sys} N={n} T={t} {mode} hint={hint} + abstraction audit (query battery after clear / restart / tick, unmerged, on every arrival)"
+    if quq and cs:
+        a += ["--quq-cs", str(cs)]
+        label = label or f"{sys} N={n} T={t} {mode} hint={hint} + query, then every sequence of 1..{quq + cs} updates, full observation suite after each (single queries after the first {quq}), unmerged"
     if quq and tail2:
         a += ["--quq-tail", str(1 + tail2)]
     if quq:
@@ -119,13 +125,13 @@ SPECS = {}
 
 # --- expiring-key tree -------------------------------------------------------
 SPECS["C01"] = {
-    "quick": [K("ktree", 3, 2, KA + ",o_pred", quq=1, tail2=2), K("ktree", 2, 2, KA + ",o_pred", quq=1, tail2=1), K("ktree", 2, 2, KA + ",o_pred", quq=2), K("ktree", 3, 2, KA + ",o_pred", quq=1), K("ktree", 2, 2, KA + ",o_pred", deep=3), K("ktree", 3, 1, KA + ",o_pred", deep=2), K("ktree", 3, 3, KA + ",o_pred", audit=1), K("ktree", 3, 3, KA + ",o_pred", tbase=252), K("ktree", 5, 1, "fleby,clear,o_pred"), F("ktree", "fl,fle,fleby,get,o_pred"), K("ktree", 3, 3, KA + ",o_pred", tbase=251), K("ktree", 4, 3, KA + ",o_pred"), K("ktree", 3, 3, KA + ",o_pred"), K("ktree", 3, 2, KA + ",o_pred", mode="full"), K("ktree", 8, 0, "fleby,clear,o_pred", mode="shape", label="ktree N=8 T=0 shape (arena growth)")],
-    "thorough": [K("ktree", 3, 1, KA + ",o_pred", quq=2, tail2=2), K("ktree", 3, 2, KA + ",o_pred", quq=2, tail2=2, cap_s=1500), K("ktree", 3, 2, KA + ",o_pred", quq=1, tail2=2), K("ktree", 2, 2, KA + ",o_pred", quq=1, tail2=1), K("ktree", 3, 2, KA + ",o_pred", quq=2), K("ktree", 2, 2, KA + ",o_pred", quq=2), K("ktree", 3, 2, KA + ",o_pred", quq=1), K("ktree", 3, 2, KA + ",o_pred", deep=2), K("ktree", 2, 2, KA + ",o_pred", deep=3), K("ktree", 3, 1, KA + ",o_pred", deep=2), K("ktree", 3, 3, KA + ",o_pred", audit=1), K("ktree", 3, 3, KA + ",o_pred", tbase=252), K("ktree", 5, 1, "fleby,clear,o_pred"), F("ktree", "fl,fle,fleby,get,o_pred"), K("ktree", 4, 4, KA + ",o_pred"), K("ktree", 5, 2, KA + ",o_pred", cap_s=900), K("ktree", 3, 3, KA + ",o_pred", mode="full"),
+    "quick": [K("ktree", 2, 2, KA + ",o_pred", quq=1, cs=1), K("ktree", 3, 2, KA + ",o_pred", quq=1, tail2=2), K("ktree", 2, 2, KA + ",o_pred", quq=1, tail2=1), K("ktree", 2, 2, KA + ",o_pred", quq=2), K("ktree", 3, 2, KA + ",o_pred", quq=1), K("ktree", 2, 2, KA + ",o_pred", deep=3), K("ktree", 3, 1, KA + ",o_pred", deep=2), K("ktree", 3, 3, KA + ",o_pred", audit=1), K("ktree", 3, 3, KA + ",o_pred", tbase=252), K("ktree", 5, 1, "fleby,clear,o_pred"), F("ktree", "fl,fle,fleby,get,o_pred"), K("ktree", 3, 3, KA + ",o_pred", tbase=251), K("ktree", 4, 3, KA + ",o_pred"), K("ktree", 3, 3, KA + ",o_pred"), K("ktree", 3, 2, KA + ",o_pred", mode="full"), K("ktree", 8, 0, "fleby,clear,o_pred", mode="shape", label="ktree N=8 T=0 shape (arena growth)")],
+    "thorough": [K("ktree", 2, 2, KA + ",o_pred", quq=1, cs=1), K("ktree", 3, 1, KA + ",o_pred", quq=2, tail2=2), K("ktree", 3, 2, KA + ",o_pred", quq=2, tail2=2, cap_s=1500), K("ktree", 3, 2, KA + ",o_pred", quq=1, tail2=2), K("ktree", 2, 2, KA + ",o_pred", quq=1, tail2=1), K("ktree", 3, 2, KA + ",o_pred", quq=2), K("ktree", 2, 2, KA + ",o_pred", quq=2), K("ktree", 3, 2, KA + ",o_pred", quq=1), K("ktree", 3, 2, KA + ",o_pred", deep=2), K("ktree", 2, 2, KA + ",o_pred", deep=3), K("ktree", 3, 1, KA + ",o_pred", deep=2), K("ktree", 3, 3, KA + ",o_pred", audit=1), K("ktree", 3, 3, KA + ",o_pred", tbase=252), K("ktree", 5, 1, "fleby,clear,o_pred"), F("ktree", "fl,fle,fleby,get,o_pred"), K("ktree", 4, 4, KA + ",o_pred"), K("ktree", 5, 2, KA + ",o_pred", cap_s=900), K("ktree", 3, 3, KA + ",o_pred", mode="full"),
                  K("ktree", 8, 1, "fle,fleby,clear,o_pred", mode="shape", cap_s=900), K("ktree", 4, 3, KA + ",o_pred", hint=9)],
 }
 SPECS["C06"] = {
-    "quick": [K("ktree", 3, 2, KA + ",o_get", quq=1, tail2=2), K("ktree", 2, 2, KA + ",o_get", quq=1, tail2=1), K("ktree", 2, 2, KA + ",o_get", quq=2), K("ktree", 3, 2, KA + ",o_get", quq=1), K("ktree", 2, 2, KA + ",o_get", deep=3), K("ktree", 3, 1, KA + ",o_get", deep=2), K("ktree", 3, 3, KA + ",o_get", audit=1), K("ktree", 3, 3, KA + ",o_get", tbase=252), K("ktree", 5, 1, "get,o_get"), F("ktree", "fl,fle,fleby,get,o_get"), K("ktree", 3, 3, KA + ",o_get", tbase=251), K("ktree", 4, 3, KA + ",o_get"), K("ktree", 3, 3, KA + ",o_get"), K("ktree", 3, 2, KA + ",o_get", mode="full"), K("ktree", 8, 0, "get,clear,o_get", mode="shape")],
-    "thorough": [K("ktree", 3, 2, KA + ",o_get", quq=1, tail2=2), K("ktree", 2, 2, KA + ",o_get", quq=1, tail2=1), K("ktree", 3, 2, KA + ",o_get", quq=2), K("ktree", 2, 2, KA + ",o_get", quq=2), K("ktree", 3, 2, KA + ",o_get", quq=1), K("ktree", 3, 2, KA + ",o_get", deep=2), K("ktree", 2, 2, KA + ",o_get", deep=3), K("ktree", 3, 1, KA + ",o_get", deep=2), K("ktree", 3, 3, KA + ",o_get", audit=1), K("ktree", 3, 3, KA + ",o_get", tbase=252), K("ktree", 5, 1, "get,o_get"), F("ktree", "fl,fle,fleby,get,o_get"), K("ktree", 4, 4, KA + ",o_get"), K("ktree", 5, 2, KA + ",o_get", cap_s=900), K("ktree", 3, 3, KA + ",o_get", mode="full"), K("ktree", 9, 1, "get,clear,o_get", mode="shape", cap_s=900)],
+    "quick": [K("ktree", 2, 2, KA + ",o_get", quq=1, cs=1), K("ktree", 3, 2, KA + ",o_get", quq=1, tail2=2), K("ktree", 2, 2, KA + ",o_get", quq=1, tail2=1), K("ktree", 2, 2, KA + ",o_get", quq=2), K("ktree", 3, 2, KA + ",o_get", quq=1), K("ktree", 2, 2, KA + ",o_get", deep=3), K("ktree", 3, 1, KA + ",o_get", deep=2), K("ktree", 3, 3, KA + ",o_get", audit=1), K("ktree", 3, 3, KA + ",o_get", tbase=252), K("ktree", 5, 1, "get,o_get"), F("ktree", "fl,fle,fleby,get,o_get"), K("ktree", 3, 3, KA + ",o_get", tbase=251), K("ktree", 4, 3, KA + ",o_get"), K("ktree", 3, 3, KA + ",o_get"), K("ktree", 3, 2, KA + ",o_get", mode="full"), K("ktree", 8, 0, "get,clear,o_get", mode="shape")],
+    "thorough": [K("ktree", 2, 2, KA + ",o_get", quq=1, cs=1), K("ktree", 3, 2, KA + ",o_get", quq=1, tail2=2), K("ktree", 2, 2, KA + ",o_get", quq=1, tail2=1), K("ktree", 3, 2, KA + ",o_get", quq=2), K("ktree", 2, 2, KA + ",o_get", quq=2), K("ktree", 3, 2, KA + ",o_get", quq=1), K("ktree", 3, 2, KA + ",o_get", deep=2), K("ktree", 2, 2, KA + ",o_get", deep=3), K("ktree", 3, 1, KA + ",o_get", deep=2), K("ktree", 3, 3, KA + ",o_get", audit=1), K("ktree", 3, 3, KA + ",o_get", tbase=252), K("ktree", 5, 1, "get,o_get"), F("ktree", "fl,fle,fleby,get,o_get"), K("ktree", 4, 4, KA + ",o_get"), K("ktree", 5, 2, KA + ",o_get", cap_s=900), K("ktree", 3, 3, KA + ",o_get", mode="full"), K("ktree", 9, 1, "get,clear,o_get", mode="shape", cap_s=900)],
 }
 SPECS["C07"] = {
     "quick": [K("ktree", 8, 0, "fleby,clear,o_export", mode="shape"), K("ktree", 3, 3, KA + ",o_export", tbase=252), K("klist", 3, 3, KA + ",o_export", tbase=252), F("ktree", "fl,fle,fleby,get,o_export"), F("klist", "fl,fle,fleby,get,o_export"), K("ktree", 3, 3, KA + ",o_export", tbase=251), K("klist", 3, 3, KA + ",o_export", tbase=251), K("ktree", 4, 2, KA + ",o_export"), K("ktree", 3, 3, KA + ",o_export"), K("klist", 3, 3, KA + ",o_export"), K("ktree", 3, 2, KA + ",o_export", mode="full")],
@@ -142,26 +148,26 @@ SPECS["C20"] = {
 
 # --- map / set ---------------------------------------------------------------
 SPECS["C04"] = {
-    "quick": [M("maptree", 3, MAW + ",o_ref", quq=2, tail2=2), M("maptree", 3, MAW + ",o_ref", quq=2), M("maptree", 3, MAW + ",o_ref", deep=3), M("maptree", 5, MA + ",o_ref", audit=1), M("maptree", 5, MAW + ",o_ref", pay="track"), F("maptree", MA + ",o_ref", pay="track", sizes="9,17,33"), F("maptree", MA + ",o_ref"), F("maptree", MA + ",o_ref", pay="heap", hint=0, sizes="9,17,33,65"), M("maptree", 6, MA + ",o_ref"), M("maptree", 4, MAW + ",o_ref", pay="heap", hint=0), M("maptree", 4, MAW + ",o_ref", hint=1),
+    "quick": [M("maptree", 3, MA + ",o_ref,o_handle", quq=1, cs=2), M("maptree", 3, MAW + ",o_ref", quq=2, tail2=2), M("maptree", 3, MAW + ",o_ref", quq=2), M("maptree", 3, MAW + ",o_ref", deep=3), M("maptree", 5, MA + ",o_ref", audit=1), M("maptree", 5, MAW + ",o_ref", pay="track"), F("maptree", MA + ",o_ref", pay="track", sizes="9,17,33"), F("maptree", MA + ",o_ref"), F("maptree", MA + ",o_ref", pay="heap", hint=0, sizes="9,17,33,65"), M("maptree", 6, MA + ",o_ref"), M("maptree", 4, MAW + ",o_ref", pay="heap", hint=0), M("maptree", 4, MAW + ",o_ref", hint=1),
               M("maptree", 10, "del,clear,o_ref", mode="shape"), M("maptree", 10, "del,clear,o_ref", mode="shape", hint=9), M("maptree", 3, MA + ",o_ref", mode="full"), M("maptree", 3, MAW + ",o_ref", hint=64)],
-    "thorough": [M("maptree", 4, MAW + ",o_ref", quq=1, tail2=2), M("maptree", 14, "del,clear,o_ref", mode="shape", cap_s=1500), M("maptree", 3, MAW + ",o_ref", quq=2), M("maptree", 3, MAW + ",o_ref", deep=3), M("maptree", 5, MA + ",o_ref", audit=1), M("maptree", 5, MAW + ",o_ref", pay="track"), F("maptree", MA + ",o_ref", pay="track", sizes="9,17,33"), F("maptree", MA + ",o_ref"), F("maptree", MA + ",o_ref", pay="heap", hint=0, sizes="9,17,33,65"), M("maptree", 7, MA + ",o_ref"), M("maptree", 6, MA + ",o_ref", pay="heap", hint=0), M("maptree", 5, MAW + ",o_ref", hint=1),
+    "thorough": [M("maptree", 4, MA + ",o_ref,o_handle", quq=1, cs=2), M("maptree", 3, MA + ",o_ref,o_handle", quq=2, cs=2), M("maptree", 3, MA + ",o_ref,o_handle", quq=1, cs=2), M("maptree", 4, MAW + ",o_ref", quq=1, tail2=2), M("maptree", 14, "del,clear,o_ref", mode="shape", cap_s=1500), M("maptree", 3, MAW + ",o_ref", quq=2), M("maptree", 3, MAW + ",o_ref", deep=3), M("maptree", 5, MA + ",o_ref", audit=1), M("maptree", 5, MAW + ",o_ref", pay="track"), F("maptree", MA + ",o_ref", pay="track", sizes="9,17,33"), F("maptree", MA + ",o_ref"), F("maptree", MA + ",o_ref", pay="heap", hint=0, sizes="9,17,33,65"), M("maptree", 7, MA + ",o_ref"), M("maptree", 6, MA + ",o_ref", pay="heap", hint=0), M("maptree", 5, MAW + ",o_ref", hint=1),
                  M("maptree", 12, "del,clear,o_ref", mode="shape"), M("maptree", 12, "del,clear,o_ref", mode="shape", hint=9), M("maptree", 4, "del,clear,o_ref", mode="full", max_states=30000000, cap_s=1200), M("maptree", 5, MAW + ",o_ref", hint=64)],
 }
 SPECS["C05"] = {
-    "quick": [M("settree", 3, MAW + ",o_ref", quq=2, tail2=2), M("settree", 3, MAW + ",o_ref", quq=2), M("settree", 3, MAW + ",o_ref", deep=3), M("settree", 5, MA + ",o_ref", audit=1), M("settree", 5, MAW + ",o_ref", pay="track"), F("settree", MA + ",o_ref", pay="track", sizes="9,17,33"), F("settree", MA + ",o_ref"), F("settree", MA + ",o_ref", pay="heap", hint=0, sizes="9,17,33,65"), M("settree", 6, MA + ",o_ref"), M("settree", 4, MAW + ",o_ref", pay="heap", hint=0), M("settree", 6, MA + ",o_ref", pay="bare", hint=1),
+    "quick": [M("settree", 3, MA + ",o_ref,o_handle", quq=1, cs=2), M("settree", 3, MAW + ",o_ref", quq=2, tail2=2), M("settree", 3, MAW + ",o_ref", quq=2), M("settree", 3, MAW + ",o_ref", deep=3), M("settree", 5, MA + ",o_ref", audit=1), M("settree", 5, MAW + ",o_ref", pay="track"), F("settree", MA + ",o_ref", pay="track", sizes="9,17,33"), F("settree", MA + ",o_ref"), F("settree", MA + ",o_ref", pay="heap", hint=0, sizes="9,17,33,65"), M("settree", 6, MA + ",o_ref"), M("settree", 4, MAW + ",o_ref", pay="heap", hint=0), M("settree", 6, MA + ",o_ref", pay="bare", hint=1),
               M("settree", 10, "del,clear,o_ref", mode="shape"), M("settree", 3, MA + ",o_ref", mode="full")],
-    "thorough": [M("settree", 4, MAW + ",o_ref", quq=1, tail2=2), M("settree", 14, "del,clear,o_ref", mode="shape", cap_s=1500), M("settree", 3, MAW + ",o_ref", quq=2), M("settree", 3, MAW + ",o_ref", deep=3), M("settree", 5, MA + ",o_ref", audit=1), M("settree", 5, MAW + ",o_ref", pay="track"), F("settree", MA + ",o_ref", pay="track", sizes="9,17,33"), F("settree", MA + ",o_ref"), F("settree", MA + ",o_ref", pay="heap", hint=0, sizes="9,17,33,65"), M("settree", 7, MA + ",o_ref"), M("settree", 6, MA + ",o_ref", pay="heap", hint=0), M("settree", 6, MA + ",o_ref", pay="bare", hint=1), M("settree", 5, MAW + ",o_ref", hint=64),
+    "thorough": [M("settree", 4, MA + ",o_ref,o_handle", quq=1, cs=2), M("settree", 3, MA + ",o_ref,o_handle", quq=2, cs=2), M("settree", 3, MA + ",o_ref,o_handle", quq=1, cs=2), M("settree", 4, MAW + ",o_ref", quq=1, tail2=2), M("settree", 14, "del,clear,o_ref", mode="shape", cap_s=1500), M("settree", 3, MAW + ",o_ref", quq=2), M("settree", 3, MAW + ",o_ref", deep=3), M("settree", 5, MA + ",o_ref", audit=1), M("settree", 5, MAW + ",o_ref", pay="track"), F("settree", MA + ",o_ref", pay="track", sizes="9,17,33"), F("settree", MA + ",o_ref"), F("settree", MA + ",o_ref", pay="heap", hint=0, sizes="9,17,33,65"), M("settree", 7, MA + ",o_ref"), M("settree", 6, MA + ",o_ref", pay="heap", hint=0), M("settree", 6, MA + ",o_ref", pay="bare", hint=1), M("settree", 5, MAW + ",o_ref", hint=64),
                  M("settree", 12, "del,clear,o_ref", mode="shape", hint=9), M("settree", 4, "del,clear,o_ref", mode="full", max_states=30000000, cap_s=1200)],
 }
 SPECS["C08"] = {
-    "quick": [M("maptree", 3, MAW + ",o_handle,o_ref", quq=2, tail2=2), M("settree", 3, MA + ",o_handle,o_ref", quq=2, tail2=2), M("maptree", 3, MAW + ",o_handle,o_ref", quq=1, tail2=1), M("settree", 3, MAW + ",o_handle,o_ref", quq=1, tail2=1), M("maptree", 3, MAW + ",o_handle,o_ref", quq=2), M("settree", 3, MAW + ",o_handle,o_ref", quq=2), M("maptree", 3, MAW + ",o_handle,o_ref", deep=3), M("settree", 3, MAW + ",o_handle,o_ref", deep=3), M("maptree", 5, MA + ",o_handle", audit=1), M("settree", 5, MA + ",o_handle", audit=1), M("settree", 4, MAW + ",o_handle,o_ref", pay="track"), F("maptree", MA + ",o_handle"), F("settree", MA + ",o_handle"), M("maptree", 6, MA + ",o_handle"), M("settree", 6, MA + ",o_handle"), M("maptree", 4, MAW + ",o_handle,o_ref", pay="heap"), M("settree", 4, MAW + ",o_handle,o_ref"),
+    "quick": [M("maptree", 3, MA + ",o_ref,o_handle", quq=1, cs=2), M("settree", 3, MA + ",o_ref,o_handle", quq=1, cs=2), M("maptree", 3, MAW + ",o_handle,o_ref", quq=2, tail2=2), M("settree", 3, MA + ",o_handle,o_ref", quq=2, tail2=2), M("maptree", 3, MAW + ",o_handle,o_ref", quq=1, tail2=1), M("settree", 3, MAW + ",o_handle,o_ref", quq=1, tail2=1), M("maptree", 3, MAW + ",o_handle,o_ref", quq=2), M("settree", 3, MAW + ",o_handle,o_ref", quq=2), M("maptree", 3, MAW + ",o_handle,o_ref", deep=3), M("settree", 3, MAW + ",o_handle,o_ref", deep=3), M("maptree", 5, MA + ",o_handle", audit=1), M("settree", 5, MA + ",o_handle", audit=1), M("settree", 4, MAW + ",o_handle,o_ref", pay="track"), F("maptree", MA + ",o_handle"), F("settree", MA + ",o_handle"), M("maptree", 6, MA + ",o_handle"), M("settree", 6, MA + ",o_handle"), M("maptree", 4, MAW + ",o_handle,o_ref", pay="heap"), M("settree", 4, MAW + ",o_handle,o_ref"),
               M("maptree", 10, "delh,clear,o_handle", mode="shape"), M("settree", 10, "delh,clear,o_handle", mode="shape", hint=9)],
-    "thorough": [M("maptree", 4, MAW + ",o_handle,o_ref", quq=2, tail2=2), M("maptree", 4, MAW + ",o_handle,o_ref", quq=1, tail2=2), M("settree", 4, MAW + ",o_handle,o_ref", quq=1, tail2=2), M("maptree", 13, "delh,clear,o_handle", mode="shape", cap_s=1500), M("settree", 13, "delh,clear,o_handle", mode="shape", hint=9, cap_s=1500), M("maptree", 3, MAW + ",o_handle,o_ref", quq=1, tail2=1), M("settree", 3, MAW + ",o_handle,o_ref", quq=1, tail2=1), M("maptree", 4, MAW + ",o_handle,o_ref", quq=2), M("settree", 4, MAW + ",o_handle,o_ref", quq=2), M("maptree", 3, MAW + ",o_handle,o_ref", quq=3), M("maptree", 3, MAW + ",o_handle,o_ref", quq=2), M("settree", 3, MAW + ",o_handle,o_ref", quq=2), M("maptree", 4, MAW + ",o_handle,o_ref", deep=3), M("settree", 4, MAW + ",o_handle,o_ref", deep=3), M("maptree", 3, MAW + ",o_handle,o_ref", deep=3), M("settree", 3, MAW + ",o_handle,o_ref", deep=3), M("maptree", 5, MA + ",o_handle", audit=1), M("settree", 5, MA + ",o_handle", audit=1), M("settree", 4, MAW + ",o_handle,o_ref", pay="track"), F("maptree", MA + ",o_handle"), F("settree", MA + ",o_handle"), M("maptree", 7, MA + ",o_handle"), M("settree", 7, MA + ",o_handle"), M("maptree", 5, MAW + ",o_handle,o_ref", pay="heap"), M("settree", 5, MAW + ",o_handle,o_ref"),
+    "thorough": [M("maptree", 3, MA + ",o_ref,o_handle", quq=1, cs=2), M("settree", 3, MA + ",o_ref,o_handle", quq=1, cs=2), M("maptree", 4, MAW + ",o_handle,o_ref", quq=2, tail2=2), M("maptree", 4, MAW + ",o_handle,o_ref", quq=1, tail2=2), M("settree", 4, MAW + ",o_handle,o_ref", quq=1, tail2=2), M("maptree", 13, "delh,clear,o_handle", mode="shape", cap_s=1500), M("settree", 13, "delh,clear,o_handle", mode="shape", hint=9, cap_s=1500), M("maptree", 3, MAW + ",o_handle,o_ref", quq=1, tail2=1), M("settree", 3, MAW + ",o_handle,o_ref", quq=1, tail2=1), M("maptree", 4, MAW + ",o_handle,o_ref", quq=2), M("settree", 4, MAW + ",o_handle,o_ref", quq=2), M("maptree", 3, MAW + ",o_handle,o_ref", quq=3), M("maptree", 3, MAW + ",o_handle,o_ref", quq=2), M("settree", 3, MAW + ",o_handle,o_ref", quq=2), M("maptree", 4, MAW + ",o_handle,o_ref", deep=3), M("settree", 4, MAW + ",o_handle,o_ref", deep=3), M("maptree", 3, MAW + ",o_handle,o_ref", deep=3), M("settree", 3, MAW + ",o_handle,o_ref", deep=3), M("maptree", 5, MA + ",o_handle", audit=1), M("settree", 5, MA + ",o_handle", audit=1), M("settree", 4, MAW + ",o_handle,o_ref", pay="track"), F("maptree", MA + ",o_handle"), F("settree", MA + ",o_handle"), M("maptree", 7, MA + ",o_handle"), M("settree", 7, MA + ",o_handle"), M("maptree", 5, MAW + ",o_handle,o_ref", pay="heap"), M("settree", 5, MAW + ",o_handle,o_ref"),
                  M("maptree", 12, "delh,clear,o_handle", mode="shape"), M("settree", 12, "delh,clear,o_handle", mode="shape", hint=9)],
 }
 SPECS["C09"] = {
-    "quick": [M("settree", 3, MA + ",o_neigh,o_handle", quq=2, tail2=2), M("settree", 3, MA + ",o_neigh,o_handle", quq=1, tail2=1), M("settree", 3, MA + ",o_neigh,o_handle", quq=2), M("settree", 3, MA + ",o_neigh,o_handle", deep=3), M("settree", 5, MA + ",o_neigh", audit=1), F("settree", MA + ",o_neigh"), M("settree", 6, MA + ",o_neigh"), M("settree", 6, MA + ",o_neigh", pay="bare"), M("settree", 10, "del,clear,o_neigh", mode="shape"), M("settree", 3, MA + ",o_neigh", mode="full")],
-    "thorough": [M("settree", 4, MA + ",o_neigh,o_handle", quq=1, tail2=2), M("settree", 14, "del,clear,o_neigh", mode="shape", cap_s=1500), M("settree", 3, MA + ",o_neigh,o_handle", quq=1, tail2=1), M("settree", 4, MA + ",o_neigh,o_handle", quq=2), M("settree", 3, MA + ",o_neigh,o_handle", quq=2), M("settree", 3, MA + ",o_neigh,o_handle", deep=3), M("settree", 5, MA + ",o_neigh", audit=1), F("settree", MA + ",o_neigh"), M("settree", 7, MA + ",o_neigh"), M("settree", 6, MA + ",o_neigh", pay="bare"), M("settree", 12, "del,clear,o_neigh", mode="shape", hint=9), M("settree", 6, MA + ",o_neigh", pay="heap", hint=64)],
+    "quick": [M("settree", 3, MA + ",o_neigh,o_handle", quq=1, cs=2), M("settree", 3, MA + ",o_neigh,o_handle", quq=2, tail2=2), M("settree", 3, MA + ",o_neigh,o_handle", quq=1, tail2=1), M("settree", 3, MA + ",o_neigh,o_handle", quq=2), M("settree", 3, MA + ",o_neigh,o_handle", deep=3), M("settree", 5, MA + ",o_neigh", audit=1), F("settree", MA + ",o_neigh"), M("settree", 6, MA + ",o_neigh"), M("settree", 6, MA + ",o_neigh", pay="bare"), M("settree", 10, "del,clear,o_neigh", mode="shape"), M("settree", 3, MA + ",o_neigh", mode="full")],
+    "thorough": [M("settree", 3, MA + ",o_neigh,o_handle", quq=1, cs=2), M("settree", 4, MA + ",o_neigh,o_handle", quq=1, tail2=2), M("settree", 14, "del,clear,o_neigh", mode="shape", cap_s=1500), M("settree", 3, MA + ",o_neigh,o_handle", quq=1, tail2=1), M("settree", 4, MA + ",o_neigh,o_handle", quq=2), M("settree", 3, MA + ",o_neigh,o_handle", quq=2), M("settree", 3, MA + ",o_neigh,o_handle", deep=3), M("settree", 5, MA + ",o_neigh", audit=1), F("settree", MA + ",o_neigh"), M("settree", 7, MA + ",o_neigh"), M("settree", 6, MA + ",o_neigh", pay="bare"), M("settree", 12, "del,clear,o_neigh", mode="shape", hint=9), M("settree", 6, MA + ",o_neigh", pay="heap", hint=64)],
 }
 SPECS["C17"] = {
     "quick": [M("maptree", 3, MA + ",o_hstab,o_handle", quq=2), M("settree", 3, MA + ",o_hstab,o_handle", quq=2), F("maptree", MA + ",o_hstab"), F("settree", MA + ",o_hstab", hint=9), M("maptree", 6, MA + ",o_hstab"), M("settree", 6, MA + ",o_hstab"), M("maptree", 10, "del,clear,o_hstab", mode="shape"), M("settree", 10, "del,clear,o_hstab", mode="shape", hint=9), M("maptree", 4, MAW + ",o_hstab", pay="heap")],
@@ -183,18 +189,18 @@ SPECS["C11"] = {
                  K("ktree", 9, 1, "fleby,clear,o_arena", mode="shape", hint=9, cap_s=900), M("settree", 6, MA + ",o_arena", hint=64), K("ktree", 4, 3, KA + ",o_arena", hint=64)],
 }
 SPECS["C12"] = {
-    "quick": [M("maptree", 3, MA + ",o_twin,o_ref,o_handle", quq=2), K("ktree", 2, 2, KA + ",o_twin,o_pred", quq=2), M("maptree", 3, MA + ",o_twin,o_ref,o_handle", deep=3), K("ktree", 2, 2, KA + ",o_twin,o_pred", deep=3), K("ktree", 3, 2, KA + ",o_twin,o_pred", audit=1), M("maptree", 4, MA + ",o_twin,o_ref,o_handle", audit=1), F("maptree", MA + ",o_twin,o_ref,o_handle"), F("settree", MA + ",o_twin,o_ref,o_handle", hint=9), F("maplist", MA + ",o_twin,o_ref,o_handle", sizes="9,17,33,65"), F("setlist", MA + ",o_twin,o_ref,o_handle", sizes="9,17,33,65"), F("ktree", "fl,fle,fleby,get,o_twin,o_pred"), F("klist", "fl,fle,fleby,get,o_twin,o_pred"), FS(0, 31, "o_query,o_twin"), FS(-7, 92, "o_query,o_twin"), K("klist", 3, 3, KA + ",o_twin,o_pred", tbase=252), K("ktree", 3, 3, KA + ",o_twin,o_pred", tbase=252), K("ktree", 4, 2, KA + ",o_twin,o_pred"), M("maptree", 4, MA + ",o_twin,o_ref,o_handle"), M("settree", 4, MA + ",o_twin,o_ref,o_handle"), M("maplist", 4, MA + ",o_twin,o_ref,o_handle"), M("setlist", 4, MA + ",o_twin,o_ref,o_handle"),
+    "quick": [M("maptree", 3, MA + ",o_twin,o_ref,o_handle", quq=1, cs=2), M("settree", 3, MA + ",o_twin,o_ref,o_handle", quq=1, cs=2), M("maptree", 3, MA + ",o_twin,o_ref,o_handle", quq=2), K("ktree", 2, 2, KA + ",o_twin,o_pred", quq=2), M("maptree", 3, MA + ",o_twin,o_ref,o_handle", deep=3), K("ktree", 2, 2, KA + ",o_twin,o_pred", deep=3), K("ktree", 3, 2, KA + ",o_twin,o_pred", audit=1), M("maptree", 4, MA + ",o_twin,o_ref,o_handle", audit=1), F("maptree", MA + ",o_twin,o_ref,o_handle"), F("settree", MA + ",o_twin,o_ref,o_handle", hint=9), F("maplist", MA + ",o_twin,o_ref,o_handle", sizes="9,17,33,65"), F("setlist", MA + ",o_twin,o_ref,o_handle", sizes="9,17,33,65"), F("ktree", "fl,fle,fleby,get,o_twin,o_pred"), F("klist", "fl,fle,fleby,get,o_twin,o_pred"), FS(0, 31, "o_query,o_twin"), FS(-7, 92, "o_query,o_twin"), K("klist", 3, 3, KA + ",o_twin,o_pred", tbase=252), K("ktree", 3, 3, KA + ",o_twin,o_pred", tbase=252), K("ktree", 4, 2, KA + ",o_twin,o_pred"), M("maptree", 4, MA + ",o_twin,o_ref,o_handle"), M("settree", 4, MA + ",o_twin,o_ref,o_handle"), M("maplist", 4, MA + ",o_twin,o_ref,o_handle"), M("setlist", 4, MA + ",o_twin,o_ref,o_handle"),
               K("ktree", 3, 2, KA + ",o_twin,o_pred"), K("klist", 3, 2, KA + ",o_twin,o_pred"), S(0, 31, SA + ",o_twin,o_query"), S(-7, 92, SA + ",o_twin,o_query"),
               M("maptree", 10, "del,clear,o_twin,o_ref", mode="shape"), M("settree", 10, "del,clear,o_twin,o_ref", mode="shape", hint=9), K("ktree", 8, 0, "fleby,clear,o_twin,o_pred", mode="shape")],
-    "thorough": [M("maptree", 13, "del,clear,o_twin,o_ref", mode="shape", cap_s=1500), M("maptree", 3, MA + ",o_twin,o_ref,o_handle", quq=2), K("ktree", 2, 2, KA + ",o_twin,o_pred", quq=2), M("maptree", 3, MA + ",o_twin,o_ref,o_handle", deep=3), K("ktree", 2, 2, KA + ",o_twin,o_pred", deep=3), K("ktree", 3, 2, KA + ",o_twin,o_pred", audit=1), M("maptree", 4, MA + ",o_twin,o_ref,o_handle", audit=1), F("maptree", MA + ",o_twin,o_ref,o_handle"), F("settree", MA + ",o_twin,o_ref,o_handle", hint=9), F("maplist", MA + ",o_twin,o_ref,o_handle", sizes="9,17,33,65"), F("setlist", MA + ",o_twin,o_ref,o_handle", sizes="9,17,33,65"), F("ktree", "fl,fle,fleby,get,o_twin,o_pred"), F("klist", "fl,fle,fleby,get,o_twin,o_pred"), FS(0, 31, "o_query,o_twin"), FS(-7, 92, "o_query,o_twin"), K("klist", 3, 3, KA + ",o_twin,o_pred", tbase=252), K("ktree", 3, 3, KA + ",o_twin,o_pred", tbase=252), M("maptree", 6, MA + ",o_twin,o_ref,o_handle"), M("settree", 6, MA + ",o_twin,o_ref,o_handle"), M("maplist", 6, MAW + ",o_twin,o_ref,o_handle"), M("setlist", 6, MAW + ",o_twin,o_ref,o_handle"),
+    "thorough": [M("maptree", 3, MA + ",o_twin,o_ref,o_handle", quq=1, cs=2), M("settree", 3, MA + ",o_twin,o_ref,o_handle", quq=1, cs=2), M("maptree", 13, "del,clear,o_twin,o_ref", mode="shape", cap_s=1500), M("maptree", 3, MA + ",o_twin,o_ref,o_handle", quq=2), K("ktree", 2, 2, KA + ",o_twin,o_pred", quq=2), M("maptree", 3, MA + ",o_twin,o_ref,o_handle", deep=3), K("ktree", 2, 2, KA + ",o_twin,o_pred", deep=3), K("ktree", 3, 2, KA + ",o_twin,o_pred", audit=1), M("maptree", 4, MA + ",o_twin,o_ref,o_handle", audit=1), F("maptree", MA + ",o_twin,o_ref,o_handle"), F("settree", MA + ",o_twin,o_ref,o_handle", hint=9), F("maplist", MA + ",o_twin,o_ref,o_handle", sizes="9,17,33,65"), F("setlist", MA + ",o_twin,o_ref,o_handle", sizes="9,17,33,65"), F("ktree", "fl,fle,fleby,get,o_twin,o_pred"), F("klist", "fl,fle,fleby,get,o_twin,o_pred"), FS(0, 31, "o_query,o_twin"), FS(-7, 92, "o_query,o_twin"), K("klist", 3, 3, KA + ",o_twin,o_pred", tbase=252), K("ktree", 3, 3, KA + ",o_twin,o_pred", tbase=252), M("maptree", 6, MA + ",o_twin,o_ref,o_handle"), M("settree", 6, MA + ",o_twin,o_ref,o_handle"), M("maplist", 6, MAW + ",o_twin,o_ref,o_handle"), M("setlist", 6, MAW + ",o_twin,o_ref,o_handle"),
                  K("ktree", 4, 3, KA + ",o_twin,o_pred"), K("klist", 4, 4, KA + ",o_twin,o_pred"), S(0, 31, SA + ",o_twin,o_query", pop=3, cap_s=900), S(-7, 92, SA + ",o_twin,o_query"), S(0, 16, SA + ",o_twin,o_query"),
                  M("maptree", 12, "del,clear,o_twin,o_ref", mode="shape"), M("settree", 12, "del,clear,o_twin,o_ref", mode="shape", hint=9), K("ktree", 9, 1, "fleby,clear,o_twin,o_pred", mode="shape", cap_s=900)],
 }
 LISTS_M = MAW + ",o_ref,o_handle,o_pos,o_rb,o_neigh"
 LISTS_K = KA + ",o_pred,o_get,o_export,o_log,o_rb"
 SPECS["C13"] = {
-    "quick": [K("klist", 3, 2, LISTS_K, quq=1, tail2=2), M("maplist", 3, LISTS_M, quq=2, tail2=2), M("setlist", 3, LISTS_M, quq=2, tail2=2), K("klist", 2, 2, LISTS_K, quq=1, tail2=1), M("maplist", 3, LISTS_M, quq=1, tail2=1), M("setlist", 3, LISTS_M, quq=1, tail2=1), M("maplist", 3, LISTS_M, quq=2), M("setlist", 3, LISTS_M, quq=2), K("klist", 2, 2, LISTS_K, quq=2), K("klist", 3, 2, LISTS_K, quq=1), M("maplist", 3, LISTS_M, deep=3), M("setlist", 3, LISTS_M, deep=3), K("klist", 2, 2, LISTS_K, deep=3), K("klist", 3, 3, LISTS_K, audit=1), M("maplist", 5, LISTS_M, audit=1), M("setlist", 5, LISTS_M, audit=1), M("maplist", 5, LISTS_M, pay="track"), M("setlist", 5, LISTS_M, pay="track"), K("klist", 3, 3, LISTS_K, tbase=252), K("klist", 4, 3, LISTS_K + ",o_twin", tbase=251), F("maplist", LISTS_M, sizes="9,17,33,65"), F("setlist", LISTS_M, sizes="9,17,33,65"), F("klist", "fl,fle,fleby,get,o_pred,o_get,o_export,o_log,o_rb"), K("klist", 4, 3, LISTS_K, tbase=251), M("maplist", 6, LISTS_M), M("setlist", 6, LISTS_M), M("maplist", 5, LISTS_M, pay="heap", hint=0), K("klist", 4, 4, LISTS_K), K("klist", 3, 3, LISTS_K, hint=0)],
-    "thorough": [K("klist", 3, 2, LISTS_K, quq=1, tail2=2), M("maplist", 4, LISTS_M, quq=1, tail2=2), M("setlist", 4, LISTS_M, quq=1, tail2=2), K("klist", 2, 2, LISTS_K, quq=1, tail2=1), M("maplist", 3, LISTS_M, quq=1, tail2=1), M("setlist", 3, LISTS_M, quq=1, tail2=1), M("maplist", 4, LISTS_M, quq=2), M("setlist", 4, LISTS_M, quq=2), K("klist", 3, 2, LISTS_K, quq=2), M("maplist", 3, LISTS_M, quq=2), M("setlist", 3, LISTS_M, quq=2), K("klist", 2, 2, LISTS_K, quq=2), K("klist", 3, 2, LISTS_K, quq=1), M("maplist", 3, LISTS_M, deep=3), M("setlist", 3, LISTS_M, deep=3), K("klist", 2, 2, LISTS_K, deep=3), K("klist", 3, 3, LISTS_K, audit=1), M("maplist", 5, LISTS_M, audit=1), M("setlist", 5, LISTS_M, audit=1), M("maplist", 5, LISTS_M, pay="track"), M("setlist", 5, LISTS_M, pay="track"), K("klist", 3, 3, LISTS_K, tbase=252), K("klist", 4, 3, LISTS_K + ",o_twin", tbase=251), F("maplist", LISTS_M, sizes="9,17,33,65"), F("setlist", LISTS_M, sizes="9,17,33,65"), F("klist", "fl,fle,fleby,get,o_pred,o_get,o_export,o_log,o_rb"), M("maplist", 8, LISTS_M), M("setlist", 8, LISTS_M), M("setlist", 6, LISTS_M, pay="heap", hint=0), K("klist", 5, 4, LISTS_K, cap_s=900), K("klist", 4, 5, LISTS_K)],
+    "quick": [M("maplist", 3, LISTS_M, quq=1, cs=2), M("setlist", 3, LISTS_M, quq=1, cs=2), K("klist", 2, 2, LISTS_K, quq=1, cs=1), K("klist", 3, 2, LISTS_K, quq=1, tail2=2), M("maplist", 3, LISTS_M, quq=2, tail2=2), M("setlist", 3, LISTS_M, quq=2, tail2=2), K("klist", 2, 2, LISTS_K, quq=1, tail2=1), M("maplist", 3, LISTS_M, quq=1, tail2=1), M("setlist", 3, LISTS_M, quq=1, tail2=1), M("maplist", 3, LISTS_M, quq=2), M("setlist", 3, LISTS_M, quq=2), K("klist", 2, 2, LISTS_K, quq=2), K("klist", 3, 2, LISTS_K, quq=1), M("maplist", 3, LISTS_M, deep=3), M("setlist", 3, LISTS_M, deep=3), K("klist", 2, 2, LISTS_K, deep=3), K("klist", 3, 3, LISTS_K, audit=1), M("maplist", 5, LISTS_M, audit=1), M("setlist", 5, LISTS_M, audit=1), M("maplist", 5, LISTS_M, pay="track"), M("setlist", 5, LISTS_M, pay="track"), K("klist", 3, 3, LISTS_K, tbase=252), K("klist", 4, 3, LISTS_K + ",o_twin", tbase=251), F("maplist", LISTS_M, sizes="9,17,33,65"), F("setlist", LISTS_M, sizes="9,17,33,65"), F("klist", "fl,fle,fleby,get,o_pred,o_get,o_export,o_log,o_rb"), K("klist", 4, 3, LISTS_K, tbase=251), M("maplist", 6, LISTS_M), M("setlist", 6, LISTS_M), M("maplist", 5, LISTS_M, pay="heap", hint=0), K("klist", 4, 4, LISTS_K), K("klist", 3, 3, LISTS_K, hint=0)],
+    "thorough": [M("maplist", 3, LISTS_M, quq=1, cs=2), M("setlist", 3, LISTS_M, quq=1, cs=2), K("klist", 2, 2, LISTS_K, quq=1, cs=1), K("klist", 3, 2, LISTS_K, quq=1, tail2=2), M("maplist", 4, LISTS_M, quq=1, tail2=2), M("setlist", 4, LISTS_M, quq=1, tail2=2), K("klist", 2, 2, LISTS_K, quq=1, tail2=1), M("maplist", 3, LISTS_M, quq=1, tail2=1), M("setlist", 3, LISTS_M, quq=1, tail2=1), M("maplist", 4, LISTS_M, quq=2), M("setlist", 4, LISTS_M, quq=2), K("klist", 3, 2, LISTS_K, quq=2), M("maplist", 3, LISTS_M, quq=2), M("setlist", 3, LISTS_M, quq=2), K("klist", 2, 2, LISTS_K, quq=2), K("klist", 3, 2, LISTS_K, quq=1), M("maplist", 3, LISTS_M, deep=3), M("setlist", 3, LISTS_M, deep=3), K("klist", 2, 2, LISTS_K, deep=3), K("klist", 3, 3, LISTS_K, audit=1), M("maplist", 5, LISTS_M, audit=1), M("setlist", 5, LISTS_M, audit=1), M("maplist", 5, LISTS_M, pay="track"), M("setlist", 5, LISTS_M, pay="track"), K("klist", 3, 3, LISTS_K, tbase=252), K("klist", 4, 3, LISTS_K + ",o_twin", tbase=251), F("maplist", LISTS_M, sizes="9,17,33,65"), F("setlist", LISTS_M, sizes="9,17,33,65"), F("klist", "fl,fle,fleby,get,o_pred,o_get,o_export,o_log,o_rb"), M("maplist", 8, LISTS_M), M("setlist", 8, LISTS_M), M("setlist", 6, LISTS_M, pay="heap", hint=0), K("klist", 5, 4, LISTS_K, cap_s=900), K("klist", 4, 5, LISTS_K)],
 }
 
 # --- segment tree --------------------------------------------------------------
